@@ -171,7 +171,8 @@ def run(tier, seed):
     chk.rule = ('random dependency graphs to ~40 cells over 1-3 sheets (single references, areas overlapping formula cells, other sheets, cells beyond the used '
                 'range, shared dependencies; dependency direction independent of sheet position), every cell as entry: the set of generated cell members vs '
                 'the Lean descent (model) and vs reachability (spec); value of every slice member under the slice class vs the whole-workbook class; cyclic '
-                'variants (self reference, cycles through references, areas and IF branches never taken): outcome class for every entry and for the whole file. '
+                'variants (self reference, cycles through references, areas and IF branches never taken): outcome class for every entry and for the whole file; two '
+                'long-lived parsers that keep their entry cell across all workbooks must return the slice a fresh parser returns. '
                 'distinct = distinct (workbook, entry)')
     chk.assumptions += ['sub-expression methods (_s_c_r_k) are not in the abstract model; their effect is covered by the slice-vs-whole value comparison',
                         'fuel 300 stands for the recursion limit; generated graphs are far smaller']
@@ -182,6 +183,8 @@ def run(tier, seed):
     Cell = m['Cell']
     nbooks = 24 if tier == 'quick' else 300
     cases = []
+    # two long-lived parsers that keep their entry cell (numeric / A1-style spelling) across all workbooks
+    reused = {'numeric': (realcode.ReusedParser(), (0, 0, 0)), 'a1': (realcode.ReusedParser(), (TITLES[0], 'B', '1'))}
     for b in range(nbooks):
         cyclic = (b % 3 == 2)
         book = GBook(rng, cyclic)
@@ -211,6 +214,20 @@ def run(tier, seed):
                 text_e, got = None, 'E' + core.exc_class(ex)
             cases.append(('gr ' + ' '.join(greq + ['from', str(em.code(*e))]), got,
                           {'book': b, 'mode': 'entry', 'entry': e, 'cyclic': cyclic, 'workbook': repr(book.cells)[:1200]}))
+            for name, (rp, spelled) in reused.items():
+                if e == {'numeric': (0, 0, 0), 'a1': (0, 1, 0)}[name]:
+                    try:
+                        again = rp.translate(sheets, spelled)
+                    except RecursionError:
+                        again = None
+                    except Exception:  # noqa
+                        again = None
+                    chk.count('reused-parser:' + name)
+                    if again != text_e:
+                        chk.violation({'why': 'a parser that translated other workbooks before, keeping its entry cell, does not return the slice a fresh parser returns',
+                                       'entry': e, 'spelling': repr(spelled), 'book': b, 'fresh': None if text_e is None else 'members ' + got,
+                                       'reused': None if again is None else 'members K%d ' % len(members(again)) + ' '.join(map(str, members(again))),
+                                       'stream': 'reused-parser', 'workbook': repr(book.cells)[:1200]})
             chk.count('entry:' + ('error' if got.startswith('E') else 'slice'))
             if text_e is not None and whole is not None:
                 sl = realcode.executor_for(realcode.load_class(text_e))
